@@ -145,9 +145,11 @@ def run_unit(name, mod, only_props, tier):
                     pt = None
                     if order is not None:
                         pt, val = pv.random_refutation(g, hyps, order, seed)
+                    if not pt:
+                        pt, val = pv.find_refutation(g, hyps, seed)
                     if pt:
                         refuted = True
-                        msgs.append("clause %s: goal polynomial is not in the ideal of the hypotheses; refuting point over F_2147483629: %s (goal = %s)" % (gname, pt, val))
+                        msgs.append("clause %s: goal polynomial is not in the ideal of the hypotheses; refuting point (all hypotheses vanish, goal does not): %s (goal = %s)" % (gname, pt, val))
                         ob.algebraic_witness = {"clause": gname, "point": pt, "goal_value": val}
                     else:
                         msgs.append("clause %s: remainder non-zero but no refuting point found" % gname)
